@@ -55,6 +55,7 @@ fn gens(tier: Tier) -> Vec<Gen> {
         Gen::new("direct_lists", tier.pick(4, 2_000, 200_000)), // 50 lists per case
         Gen::new("end_to_end_lists", tier.pick(2, 3_000, 100_000)),
         Gen::new("send_side_messages", tier.pick(2, 600, 30_000)),
+        Gen::new("send_side_request_targets", tier.pick(2, 300, 10_000)),
     ]
 }
 
@@ -754,6 +755,12 @@ fn check_sent_headers(msg: &Msg, is_request: bool, frames: &[Vec<rq::Field>], wh
             want.push((b":path", Some(if pq.is_empty() { b"/".to_vec() } else { pq.into_bytes() })));
         }
         for (n, w) in want {
+            if n == b":scheme" && w.is_none() && !tunnel {
+                // the caller's target names no scheme (origin-form, asterisk-form): there is no supplied
+                // value to compare with; h3 fills in a scheme because RFC 9114 4.3.1 requires one
+                rep.count("scheme_not_supplied_by_the_caller(h3's choice not judged)");
+                continue;
+            }
             if get(n) != w {
                 viol(rep, &format!("send-pseudo-value-differs[{}]", String::from_utf8_lossy(n)), format!("{}: caller supplied {:?}, wire has {:?}", what, w.as_ref().map(|x| hex_short(x, 24)), get(n).map(|x| hex_short(&x, 24))), case);
             }
@@ -816,6 +823,103 @@ fn check_send_side(seed: u64, rep: &mut Report) {
     }
 }
 
+/// Every form of request target the http crate lets a caller build - absolute, origin-form with a
+/// Host field, asterisk-form, with and without path or query - is sent by the real client to a raw
+/// server; the pseudo-header fields on the wire must carry the caller's values.
+fn check_send_targets(seed: u64, rep: &mut Report) {
+    use crate::sim::SimConn;
+    let mut rng = Rng::new(seed);
+    rep.evaluations += 1;
+    let host = "h.example";
+    let (method, uri, with_host): (&str, String, bool) = match rng.below(8) {
+        0 => ("OPTIONS", "*".into(), true),
+        1 => (*rng.pick(&["GET", "POST", "OPTIONS"]), format!("/origin/form{}", if rng.bool() { "?x=1" } else { "" }), true),
+        2 => ("GET", format!("http://{}?a=b", host), rng.bool()),
+        3 => (*rng.pick(&["GET", "OPTIONS", "HEAD"]), format!("https://{}", host), rng.bool()),
+        4 => ("GET", format!("https://{}/?", host), false),
+        5 => ("GET", format!("https://{}/a//b/../c;p=1?q=%20&r=*", host), false),
+        6 => ("OPTIONS", format!("https://{}/*", host), false),
+        _ => ("GET", format!("https://{}/{}", host, "seg/".repeat(1 + rng.usize(40))), rng.bool()),
+    };
+    let mut msg = Msg { method: method.into(), uri: uri.clone(), ..Default::default() };
+    if with_host {
+        msg.headers.push(("host".into(), host.as_bytes().to_vec()));
+    }
+    if rng.bool() {
+        msg.headers.push(("x-a".into(), b"1".to_vec()));
+    }
+    let Ok(parsed) = uri.parse::<http::Uri>() else {
+        rep.count("request_target_not_accepted_by_the_http_crate");
+        return;
+    };
+    let form = if uri == "*" { "asterisk" } else if parsed.scheme().is_none() { "origin" } else if parsed.query().is_some() { "absolute with query" } else { "absolute" };
+    rep.count(&format!("request_target_form[{}]", form));
+    rep.sig(hash64(&("target", method, &uri, with_host, msg.headers.len())));
+    let case = json!({"method": method, "uri": uri, "host_field": with_host});
+    let mut cfg = NetCfg::random(&mut rng);
+    cfg.backpressure = rng.chance(1, 3);
+    let net = sim::new_net(cfg);
+    {
+        let mut n = lock(&net);
+        raw::mark_raw(&mut n, SERVER);
+        raw::open_control(&mut n, SERVER, &[]);
+    }
+    let probe = Probe::new(&net);
+    let mut sched = Sched::new(net.clone(), rng.next());
+    let sp = sched.spawner.clone();
+    let (p, net2, m2) = (probe.clone(), net.clone(), msg.clone());
+    sched.spawn("c:conn", async move {
+        let r = p
+            .call("c:conn", "build", h3::client::builder().send_grease(false).build::<_, _, Bytes>(SimConn::<Bytes>::new(&net2, CLIENT)), |r| match r {
+                Ok(_) => Out::Ok,
+                Err(e) => Out::ConnErr(apps::ConnErr::from_h3(e)),
+            })
+            .await;
+        let Ok((mut conn, mut send)) = r else { return };
+        let p2 = p.clone();
+        sp.spawn("c:driver", async move {
+            let _ = p2.call("c:driver", "wait_idle", std::future::poll_fn(|cx| conn.poll_close(cx)), |e| Out::ConnErr(apps::ConnErr::from_h3(e))).await;
+            p2.park(conn);
+        });
+        let r = p
+            .call("c:req", "send_request", send.send_request(m2.to_request()), |r| match r {
+                Ok(s) => Out::Opened(s.id().into_inner()),
+                Err(e) => Out::Err(AErr::from_h3(e)),
+            })
+            .await;
+        p.park(r.ok());
+        p.park(send);
+    });
+    if sched.run(2_000_000) == RunEnd::StepCap {
+        rep.inconclusive("step cap (send_side_request_targets)");
+        return;
+    }
+    if let Some((t, pn)) = sched.first_panic() {
+        viol(rep, &format!("send-panics[{} {}]", pn.file(), pn.msg_key()), format!("task {}: {} at {}", t, pn.msg, pn.loc), &case);
+        return;
+    }
+    let evs = probe.events();
+    let sent = evs.iter().find(|e| e.actor == "c:req" && e.op == "send_request").map(|e| e.out.clone());
+    if !matches!(sent, Some(Out::Opened(_))) {
+        // h3 may refuse a target it cannot express (no authority at all, ...): nothing went out
+        rep.count(&format!("request_target_refused_by_send_request[{}]", form));
+        return;
+    }
+    let n = lock(&net);
+    let wire: Vec<u8> = n.streams.get(&0).map(|st| st.pipe(CLIENT).sent.clone()).unwrap_or_default();
+    let (frames, _) = rf::segment(&wire);
+    let decoded: Vec<Vec<rq::Field>> = frames
+        .iter()
+        .filter(|f| f.ty == rf::T_HEADERS)
+        .filter_map(|f| match rq::judge_stateless(&f.payload) {
+            rq::Stateless::MustAccept(fl) | rq::Stateless::DontCare(fl, _) => Some(fl),
+            _ => None,
+        })
+        .collect();
+    rep.count("request_targets_checked_on_the_wire");
+    check_sent_headers(&msg, true, &decoded, "request on stream 0", rep, &case);
+}
+
 fn run_case(gen: &str, _index: u64, seed: u64, _tier: Tier, rep: &mut Report) {
     let mut rng = Rng::new(seed);
     match gen {
@@ -838,6 +942,7 @@ fn run_case(gen: &str, _index: u64, seed: u64, _tier: Tier, rep: &mut Report) {
             check_e2e(kind, &f, h3_server, rng.next(), rep);
         }
         "send_side_messages" => check_send_side(rng.next(), rep),
+        "send_side_request_targets" => check_send_targets(rng.next(), rep),
         _ => {}
     }
 }
